@@ -261,7 +261,8 @@ def gen_oracle_cases(ctx: Check, n: int) -> list[dict]:
     rng = ctx.rng
     out = []
     for i in range(n):
-        pcode, stats = gen_c04_program(rng, max_lines=12, macros=(i % 6 == 5), alarm_nesting=(i % 4 == 3))
+        pcode, stats = gen_c04_program(rng, max_lines=12, macros=(i % 6 == 5), alarm_nesting=(i % 4 == 3),
+                                       malformed=(i % 7 == 6), bad_conditions=(i % 7 == 6))
         if not pcode.startswith("Base"):
             pcode = "Base: s\n" + pcode
         ticks = rng.randrange(30, 70)
